@@ -328,6 +328,9 @@ func (e *specEnv) parse(src string) (sym.Expr, error) {
 // ---------------------------------------------------------------------------
 // Decision functions compared on sign vectors.
 
+// unordered: the sign value of a comparison key one of whose operands is NaN.
+const unordered = 2
+
 type signKey struct {
 	key    string
 	orient int
@@ -365,6 +368,9 @@ func evalCond(e sym.Expr, sg map[string]int) (bool, bool) {
 		s, ok := sg[k.key]
 		if !ok {
 			return false, false
+		}
+		if s == unordered {
+			return x.Op == "!=", true
 		}
 		s *= k.orient
 		switch x.Op {
